@@ -642,3 +642,62 @@ fn lfnb_full_run_20_len() {
     assert!(buf.as_ucs2_units().len() <= 255);
     kani::cover!(true);
 }
+
+// ---- C15: case-insensitive lookup (DirEntry::eq_name) ----
+
+fn up(b: u8) -> u8 {
+    b.to_ascii_uppercase()
+}
+
+/// lookup of a query of q_len ASCII characters against an entry whose long name has lfn_len (0 = none, or 2)
+/// ASCII units and whose short name is two ASCII characters (no extension)
+fn eq_name_case(lfn_len: usize, q_len: usize) {
+    let fs = crate::fs::verif_kani::mk_fs_plain(
+        NdDev::read_only(),
+        crate::fs::verif_kani::bpb_fat16(),
+        crate::fs::FsStatusFlags::decode(0),
+        crate::fs::verif_kani::opts(false, SymTime::fixed()),
+    );
+    let l: [u8; 2] = kani::any();
+    let s: [u8; 2] = kani::any();
+    let q: [u8; 4] = kani::any();
+    kani::assume(l[0] < 0x80 && l[1] < 0x80 && l[0] != 0 && l[1] != 0);
+    kani::assume(s[0] > 0x20 && s[0] < 0x7F && s[1] > 0x20 && s[1] < 0x7F);
+    kani::assume(q[0] < 0x80 && q[1] < 0x80 && q[2] < 0x80);
+    let mut raw = [b' '; 11];
+    raw[0] = s[0];
+    raw[1] = s[1];
+    let units = [l[0] as u16, l[1] as u16];
+    let e = DirEntry {
+        data: DirFileEntryData::new(raw, FileAttributes::from_bits_truncate(0x20)),
+        short_name: ShortName::new(&raw),
+        lfn_utf16: LfnBuffer::from_ucs2_units(units[..lfn_len].iter().copied()),
+        entry_pos: 0,
+        offset_range: (0, 0),
+        fs: &fs,
+    };
+    let query = ascii_str(&q, q_len);
+    let got = e.eq_name(query);
+    let lfn_match = lfn_len == 2 && q_len == 2 && up(l[0]) == up(q[0]) && up(l[1]) == up(q[1]);
+    let sfn_match = q_len == 2 && up(s[0]) == up(q[0]) && up(s[1]) == up(q[1]);
+    // matches the long name or the alias ignoring case - and nothing else (no prefix / extension matches)
+    assert!(got == (lfn_match || sfn_match));
+    core::mem::forget(e);
+    core::mem::forget(fs);
+}
+
+// @obl props=C15 tier=thorough fns=DirEntry::eq_name,DirEntry::eq_name_lfn,ShortName::eq_ignore_case timeout=3000
+// @bound bounded: ASCII names; long name absent or 2 characters, alias 2 characters, query 1..3 characters (all symbolic)
+// @desc a lookup matches an entry iff the query equals its long name or its short alias ignoring ASCII case - a strict prefix or an extension of the name never matches, an entry without long name answers to its alias only
+#[kani::proof]
+#[kani::unwind(14)]
+fn eq_name_ascii() {
+    let sel: u8 = kani::any();
+    match sel {
+        0 => eq_name_case(0, 2),
+        1 => eq_name_case(2, 1),
+        2 => eq_name_case(2, 2),
+        _ => eq_name_case(2, 3),
+    }
+    kani::cover!(sel == 2);
+}
